@@ -78,8 +78,9 @@ theorem copyWorld_spaces_cases {i : Nat} {sr' : SpaceRec} (h : (copyWorld w s sr
 end
 
 /-- the identity shift of what a space shows -/
-def shiftCellView (B : Nat) : Nat × Nat × Option Nat × List Nat × List Nat → Nat × Nat × Option Nat × List Nat × List Nat
-  | (c, i, cap, ags, conn) => (c + B, i, cap, ags.map (· + B), conn.map (· + B))
+def shiftCellView (B : Nat) : Nat × Nat × Option Nat × List Nat × List Nat × Nat × Option Nat →
+    Nat × Nat × Option Nat × List Nat × List Nat × Nat × Option Nat
+  | (c, i, cap, ags, conn, rnd, kl) => (c + B, i, cap, ags.map (· + B), conn.map (· + B), rnd + B, kl.map (· + B))
 
 def shiftAgentView (B : Nat) : Nat × Nat × Option Nat → Nat × Nat × Option Nat
   | (a, u, c) => (a + B, u, c.map (· + B))
